@@ -159,6 +159,64 @@ example : let s := run s0 (setupIdx ++ [.insert 0 [2, 2], .begin, .txUpdate 2 0 
     (update s 0 (.or (.eq 0 4) (.eq 0 2)) [(1, 9)]).2 = .err .lockConflict ∧ (delete s 0 (.ne 1 7)).2 = .err .lockConflict ∧
     (update s 0 (.idEq 1) [(1, 9)]).2 = .okN 1 ∧ (insert s 0 [1]).2 = .err .badInput ∧ holder s 0 0 = some 2 := by decide
 
+/-! ## batch_insert -/
+
+/-- `batch_insert` is the one writing statement that does not go through a transaction.  EVERY state:
+    it is all-or-nothing (an error — unknown table, one row with a NULL the column refuses — leaves the
+    state as it was; success appends exactly the given rows, alive, in order, after the existing ones),
+    it takes no row lock, consumes no transaction id and touches no transaction record, and it changes
+    no existing row of any table.  (So it never conflicts with an open transaction, and the run-level
+    theorems — `rollback_restores`, `held_lock_survives_others`, `index_answers_exact_in_calm_runs` —
+    hold for scripts that contain it: it is one more case of every per-statement invariant.) -/
+theorem batch_insert_all_or_nothing_no_lock (s : State) (t : Nat) (rows : List (List Val)) :
+    (∀ e, (batchInsert s t rows).2 = .err e → (batchInsert s t rows).1 = s) ∧
+    ((batchInsert s t rows).1.locks = s.locks ∧ (batchInsert s t rows).1.txLocks = s.txLocks ∧
+      (batchInsert s t rows).1.txs = s.txs ∧ (batchInsert s t rows).1.nextTx = s.nextTx) ∧
+    (∀ T n, s.tables t = some T → (batchInsert s t rows).2 = .okN n →
+      n = rows.length ∧ ∃ T', (batchInsert s t rows).1.tables t = some T' ∧
+        T'.rows = T.rows ++ rows.map (fun v => { alive := true, vals := v })) ∧
+    (∀ t', t' ≠ t → (batchInsert s t rows).1.tables t' = s.tables t') := by
+  refine ⟨?_, ?_, ?_, ?_⟩
+  · intro e
+    unfold batchInsert
+    split
+    · intro h; cases h
+    · split
+      · intro _; rfl
+      · split
+        · intro _; rfl
+        · intro h; cases h
+  · rcases batchInsert_form s t rows with hf | ⟨T, _, _, hf⟩ <;> rw [hf] <;> exact ⟨rfl, rfl, rfl, rfl⟩
+  · intro T n hT hok
+    unfold batchInsert at hok ⊢
+    split
+    · rename_i he
+      simp only [he, ↓reduceIte] at hok
+      have : rows = [] := by simpa using he
+      subst this
+      cases hok
+      exact ⟨rfl, T, hT, by simp⟩
+    · rename_i he
+      simp only [he, hT] at hok ⊢
+      split
+      · rename_i hb; simp only [hb, ↓reduceIte] at hok; cases hok
+      · rename_i hb
+        simp only [hb] at hok
+        cases hok
+        exact ⟨rfl, _, by simp, (foldl_insertRow rows T).1⟩
+  · intro t' hne
+    rcases batchInsert_form s t rows with hf | ⟨T, _, _, hf⟩ <;> rw [hf]
+    simp [hne]
+
+/-- non-vacuity: a batch next to an open transaction's lock; a batch with one bad row; an empty batch on
+    an unknown table -/
+example : let s := run s0 (setupIdx ++ [.begin, .txUpdate 1 0 (.idEq 0) [(0, 4)]])
+    (batchInsert s 0 [[2, 2], [3, 3]]).2 = .okN 2 ∧ holder (batchInsert s 0 [[2, 2], [3, 3]]).1 0 0 = some 1 ∧
+    holder (batchInsert s 0 [[2, 2], [3, 3]]).1 0 1 = none ∧
+    ((batchInsert s 0 [[2, 2], [3, 3]]).1.tables 0).map (select · (.ge 0 2)) = some [(0, [4, 1]), (1, [2, 2]), (2, [3, 3])] ∧
+    (batchInsert s 0 [[2, 2], [3, .null]]).2 = .err .badInput ∧ (batchInsert s 7 [[2, 2]]).2 = .err .tableNotFound ∧
+    (batchInsert s 7 []).2 = .okN 0 := by decide
+
 /-! ## reads -/
 
 /-- Every query answered through an index, in EVERY calm run (not only right after a rollback): after
